@@ -6,8 +6,10 @@ From Coq Require Import List NArith ZArith Bool QArith Qcanon.
 From Okv Require Import Base.Maps Base.Dec Model.Amount Model.Book Run.LedgerCase Run.Classify_C02.
 Import ListNotations.
 
-Record case := { c_entries : list entry; c_obs : lobs }.
-Definition C (es : list entry) (o : lobs) : case := {| c_entries := es; c_obs := o |}.
+Record case := { c_entries : list entry; c_obs : lobs; c_diag : gdiag }.
+Definition C (es : list entry) (o : lobs) : case := {| c_entries := es; c_obs := o; c_diag := GNone |}.
+(* with the rendered error read back (Run/LedgerCase.v gdiag) *)
+Definition CG (es : list entry) (o : lobs) (d : gdiag) : case := {| c_entries := es; c_obs := o; c_diag := d |}.
 
 (* balancing value of an explicit-amount posting, from its syntax alone *)
 Definition syntax_bv (p : posting) : option posting_amount :=
@@ -122,7 +124,13 @@ Definition classify (c : case) : N :=
            | _ => 1%N
            end
   | LErr k x =>
-      if agree then 0%N
+      if agree then
+        (* rejected as the model rejects it: the printed error must name that transaction *)
+        match m with
+        | (Err e, k') => if gdiag_names (c_diag c) k' e then 0%N
+                         else if gdiag_unreadable (c_diag c) then 9%N else 2%N
+        | _ => 0%N
+        end
       else match m with
            | (Err e, k') => if Bool.eqb (obs_inference_error x) (inference_error e) && (Nat.eqb k k' || negb (inference_error e)) then 1%N else 2%N
            | (Ok _, _) => if obs_inference_error x then 2%N else 1%N
